@@ -405,20 +405,26 @@ def run(prog, check):
              'a path neither merges nor appends (term lost) or does both (term counted twice): lines %s' % trace(seen4, bad4[0], ga),
              'repeated / cancelling flows')
     new_p = at.params()[1]
+    # the new term may be held in a local: new = Term(<parameter>)
+    new_names = {new_p}
+    for n_ in ast.walk(at.node):
+        if isinstance(n_, ast.Assign) and len(n_.targets) == 1 and isinstance(n_.targets[0], ast.Name) and isinstance(n_.value, ast.Call) \
+                and call_name(n_.value) in ('Term', 'copy', 'deepcopy') and n_.value.args and unparse(n_.value.args[0]) in new_names:
+            new_names.add(n_.targets[0].id)
 
     def equal_text_fact(n, objtxt):
         """reaching n implies <new term>.Term == <objtxt>.Term"""
         for test, outcome in ga.conditions_at(n):
-            for _, v, e in atomic_facts(test, outcome):
-                e = resolve_expr(e, asub)
-                if v is True and isinstance(e, ast.Compare) and len(e.ops) == 1 and isinstance(e.ops[0], ast.Eq):
-                    pair = {unparse(e.left), unparse(e.comparators[0])}
-                    if pair == {new_p + '.Term', objtxt + '.Term'}:
-                        return True
+            for _, v, e0 in atomic_facts(test, outcome):
+                for e in (e0, resolve_expr(e0, {k_: v_ for k_, v_ in asub.items() if k_ not in new_names})):
+                    if v is True and isinstance(e, ast.Compare) and len(e.ops) == 1 and isinstance(e.ops[0], ast.Eq):
+                        pair = {unparse(e.left), unparse(e.comparators[0])}
+                        if any(pair == {nn + '.Term', objtxt + '.Term'} for nn in new_names) and objtxt not in new_names:
+                            return True
         return False
     for n in merges:
         tgt = unparse(n.ast.target)[:-len('.Constant')]
-        val_ok = unparse(n.ast.value) == new_p + '.Constant'
+        val_ok = any(unparse(n.ast.value) == nn + '.Constant' for nn in new_names)
         ok = equal_text_fact(n, tgt)
         if not ok and tgt.isidentifier():
             # the merged object is a local: every definition that is not None was chosen under the equal-text test
@@ -435,7 +441,7 @@ def run(prog, check):
     # the appended object is the new term
     for n in appends:
         c = [c for c in ast.walk(n.ast) if isinstance(c, ast.Call) and call_name(c) == 'append'][0]
-        ok = isinstance(c.args[0], ast.Name) and c.args[0].id == new_p
+        ok = isinstance(c.args[0], ast.Name) and c.args[0].id in new_names
         check.ob('C06.R4', '%s::append-the-new-term' % at.key, ok, '%s:%d' % (at.module.rel, n.line), 'the new term is appended', '')
     # the text under which a flow is kept in F / INC is the text that was passed in (Term keeps its text verbatim)
     from ._common import term_text_verbatim
